@@ -84,7 +84,7 @@ theorem step_inv_release (s s' : St) (e : Ev) (hi : Inv s) (hs : step s e = some
     simp only [step] at hs; split at hs <;> try simp at hs
     rename_i pc flag told ha
     obtain ⟨_, rfl⟩ := hs
-    refine inv_remove s _ (.thr a) hi ?_ ?_
+    refine inv_remove s _ (.self a) hi ?_ ?_
     · intro a2 k2 pc2 f sf t h2 hk
       rcases getElem?_set_cases _ a a2 _ _ h2 with ⟨_, hx⟩ | ⟨_, hx⟩
       · cases hx
